@@ -95,6 +95,29 @@ func init() {
 		"C18": {"every 16-bit entry of BootOrder is decoded: reads run until the value is exhausted, no counter against a shrinking length, no single bounded read (H2.all)", "a load option decoded into a used value replaces it, also field by field (G14.replace)", "text rendering indexes no table with an unchecked field value (T4/T5 over the Format cone)"},
 		"C19": {"no byte buffer kept on the object is written by anything a read-only operation reaches, callbacks from io.Copy included (E.scratch)", "a scratch copy that still shares elements with the receiver is receiver-reachable (append of reference elements, caller cells behind pointer parameters)", recycle},
 	}
+	// rules added with the fourth batch
+	more4 := map[string][]string{
+		"C01": {"a search over the parts' start offsets uses > and steps back (J5)"},
+		"C02": {"an OPTIONAL element read last from a nested DER structure is followed by a look at the remainder (A.trailing)"},
+		"C03": {"the hash-coverage rules of C01", "once Sign changed the image object it returns no error (C.order)"},
+		"C04": {"an OPTIONAL element read last from a nested DER structure is followed by a look at the remainder (A.trailing)"},
+		"C06": {"the definition written is the definition signed (I8.samevar)"},
+		"C07": {"SHA-256 entries are 32 bytes of stored data (K0.guard)"},
+		"C08": {"the list decoder reads the caller's stream, not a bounded view (G4.limit)"},
+		"C09": {"duplicates are refused only by the selected list (K9.scope)", "every error of the list-level removal is tested before 'removed' (K9.errors)", "a stored list does not share its entries with the caller's list (K10.share)"},
+		"C10": {"no text-order GUID converter on wire bytes (G7.wire)", "an io.EOF inside a declared body is never success (G4.eofok)", "a buffer holding exactly the descriptor is accepted (G18.boundary)"},
+		"C11": {"the vendor GUID of a well-known name is an exact table lookup (F13.guidname)", "a 4-byte variable file is the empty value (F14.empty)"},
+		"C12": {"Unmarshal replaces the holder (G14.replace)", "a 4-byte variable file is the empty value (F14.empty)"},
+		"C13": {"slice-to-array conversions need a length (T9)", "input divisors are tested non-zero (T10)", "no dereference of a result that is nil on the error path (N2.onerror)"},
+		"C14": {"slice-to-array conversions need a length (T9)", "input divisors are tested non-zero (T10)", "no dereference of a result that is nil on the error path (N2.onerror)"},
+		"C15": {"a variable file that ends early is an error (F7.read)", "once Sign changed the image object it returns no error (C.order)"},
+		"C17": {"BytesToGUID is not applied to bytes of encoded structures (G7.wire)"},
+		"C18": {"no signed 16-bit parse of boot numbers (H2.range)", "device-path type/sub-type constants equal the UEFI numbers (G5.numbers)", "no text-order GUID converter on node bytes (G7.wire)"},
+		"C19": {"cryptobyte reads on receiver-reachable strings count as mutation", "no result composed from a cursor object of the receiver (live-cursor)"},
+	}
+	for k, v := range more4 {
+		more[k] = append(more[k], v...)
+	}
 	for k, v := range more {
 		m := Metas[k]
 		m.Decided = append(m.Decided, v...)
